@@ -23,13 +23,16 @@ ASSUMPTIONS = [
 
 @st.composite
 def fft_case(draw):
-    g = draw(gen.geom(ndim=(1, 4), nmax=6, exps=(-9, 3), maxcells=300, tol=False))
+    # from femtoseconds / sub-picometre cells (1e-15) to kilometres
+    g = draw(gen.geom(ndim=(1, 4), nmax=6, exps=(-15, 3), maxcells=300, tol=False))
     nd = len(g["n"])
     k = draw(st.integers(1, 4))
     return {"g": g, "k": k, "vdims": draw(gen.vdims_strategy(k)), "seed": draw(st.integers(0, 2**31)),
             "seed2": draw(st.integers(0, 2**31)), "cplx": draw(st.booleans()),
             "mapping": draw(st.sampled_from(["default", "perm", "empty"])), "perm_seed": draw(st.integers(0, 99)),
-            "unit": draw(st.sampled_from(gen.FIELD_UNITS))}
+            "unit": draw(st.sampled_from(gen.FIELD_UNITS)),
+            # storage precision: double, or single (float32 / complex64 fields are transformed in single precision)
+            "single": draw(st.integers(0, 4)) == 0}
 
 
 def enum_shapes(tier):
@@ -70,7 +73,10 @@ def build(case, seedkey="seed", force_real=False):
             if len(kw["vdim_mapping"]) != k:
                 kw["vdim_mapping"] = {}
             kw["vdim_mapping"] = gen.shuffled_mapping(kw["vdim_mapping"], case["perm_seed"] + 3)
-    f = df.Field(mesh, nvdim=k, value=arr, dtype=np.complex128 if cplx else None, unit=case["unit"], **kw)
+    dt = np.complex128 if cplx else None
+    if case.get("single"):
+        dt = np.complex64 if cplx else np.float32  # small integers: exactly representable
+    f = df.Field(mesh, nvdim=k, value=arr, dtype=dt, unit=case["unit"], **kw)
     return mesh, f, arr
 
 
@@ -113,7 +119,7 @@ def check_forward(case):
     dims = list(mesh.region.dims)
     units = list(mesh.region.units)
     N = int(np.prod(n))
-    tol = 1e-10 * N * max(1.0, float(np.max(np.abs(arr))))
+    tol = (1e-5 if case.get("single") else 1e-10) * N * max(1.0, float(np.max(np.abs(arr))))
     tag(f"ndim={nd}")
     if 1 in n:
         tag("single-cell-axis")
@@ -177,7 +183,7 @@ def check_inverse(case):
     n = tuple(g["n"])
     nd, k = len(n), case["k"]
     N = int(np.prod(n))
-    tol = 1e-10 * N * max(1.0, float(np.max(np.abs(arr))))
+    tol = (1e-5 if case.get("single") else 1e-10) * N * max(1.0, float(np.max(np.abs(arr))))
     cell = np.array([float(c) for c in mesh.cell])
 
     def same_geometry(m2, what, n_expect=n):
